@@ -122,6 +122,11 @@ def dirGC (p : Policy) (e : Bool) (r : DirRepo) : DirRepo × Bool :=
 
 /-! ## the store-wide pass -/
 
+/-- `dir.gc` / `mem.gc`: `start := prev − slack − grace`, a repository is skipped iff `timeMod.Before(start)`.
+    Times in milliseconds: `age` = tick − last modification, `gap` = tick − previous tick, `slack` = 250 for the
+    directory store and 0 for the memory store, `grace` = 0 when no grace period is configured. -/
+def dueOf (slack grace gap age : Nat) : Bool := decide (age ≤ gap + slack + grace)
+
 /-- a repository as the pass sees it: `due` = modified since the previous tick (minus the grace period) -/
 structure Entry (R : Type) where
   due : Bool
